@@ -2,7 +2,7 @@
 From ZV.Common Require Import Base Run.
 From ZV.C09 Require Import Model ProofsBits ProofsVec ModelSorted Cases ProofsSorted ProofsZip.
 From ZV.C09 Require Import ModelIntVec ProofsIntVecBits ProofsIntVecPack ProofsIntVecGet ProofsIntVecAnalysis ProofsIntVecTop.
-From ZV.C09 Require Import ModelUintVector ProofsUintVector ProofsUintVectorPush ModelMin0Typed ProofsMin0Typed.
+From ZV.C09 Require Import ModelUintVector ProofsUintVector ProofsUintVectorPush ModelMin0Typed ProofsMin0Typed ProofsPush.
 Open Scope N_scope.
 
 (* a field of any supported width never straddles the 64-bit load window *)
@@ -270,3 +270,45 @@ Check min0_build_from_i32_get :
       forall i, (i < length src)%nat ->
         get m (N.of_nat i) = Ok (Z.to_N (nth i src 0%Z - mn)) /\ (mn <= nth i src 0%Z)%Z.
 Print Assumptions min0_build_from_i32_get.
+
+(* ---------- incremental construction of UintVecMin0 / ZipIntVec by push_back ---------- *)
+(* push_back on every path - in place, more memory at the same width, rebuild with wider fields - appends the value
+   and keeps every earlier element, for every well-formed vector and every value below 2^58 *)
+Theorem min0_push_back_all_paths :
+  forall m l val, stores m l -> val < 2 ^ 58 ->
+    exists m', push_back m val = Ok m' /\ stores m' (l ++ [val]).
+Proof. exact push_back_spec. Qed.
+Check min0_push_back_all_paths :
+  forall m l val, stores m l -> val < 2 ^ 58 ->
+    exists m', push_back m val = Ok m' /\ stores m' (l ++ [val]).
+Print Assumptions min0_push_back_all_paths.
+
+(* new(0, max) followed by any sequence of pushes (the width grows as needed): every element reads back *)
+Theorem min0_push_all_get :
+  forall mx vals, mx < 2 ^ 58 -> Forall (fun v => v < 2 ^ 58) vals ->
+    exists m0 m, new 0 mx = Ok m0 /\ push_all m0 vals = Ok m /\ size m = nlen vals /\
+      (forall i, (i < length vals)%nat -> get m (N.of_nat i) = Ok (nth i vals 0)) /\
+      (forall i, nlen vals <= i -> get m i = Panic).
+Proof. exact min0_push_all_get_proof. Qed.
+Check min0_push_all_get :
+  forall mx vals, mx < 2 ^ 58 -> Forall (fun v => v < 2 ^ 58) vals ->
+    exists m0 m, new 0 mx = Ok m0 /\ push_all m0 vals = Ok m /\ size m = nlen vals /\
+      (forall i, (i < length vals)%nat -> get m (N.of_nat i) = Ok (nth i vals 0)) /\
+      (forall i, nlen vals <= i -> get m i = Panic).
+Print Assumptions min0_push_all_get.
+
+(* ZipIntVec::new(0, mn, mx); resize(0); push_back of every value: the same observations as bulk construction *)
+Theorem zip_push_get :
+  forall mn mx src, mn < mx -> mx - mn < 2 ^ 58 ->
+    Forall (fun v => mn <= v /\ v - mn < 2 ^ 58 /\ v < W64) src ->
+    exists z, zip_build_push mn mx src = Ok z /\ size (inner z) = nlen src /\
+      (forall i, (i < length src)%nat -> zip_get z (N.of_nat i) = Ok (nth i src 0)) /\
+      (forall i, nlen src <= i -> zip_get z i = Panic).
+Proof. exact zip_push_get_proof. Qed.
+Check zip_push_get :
+  forall mn mx src, mn < mx -> mx - mn < 2 ^ 58 ->
+    Forall (fun v => mn <= v /\ v - mn < 2 ^ 58 /\ v < W64) src ->
+    exists z, zip_build_push mn mx src = Ok z /\ size (inner z) = nlen src /\
+      (forall i, (i < length src)%nat -> zip_get z (N.of_nat i) = Ok (nth i src 0)) /\
+      (forall i, nlen src <= i -> zip_get z i = Panic).
+Print Assumptions zip_push_get.
